@@ -6,3 +6,7 @@
 #include <stdint.h>
 #define PACK_STORAGE_BITS 12
 #include "varintPacked.h"
+
+/* second instantiation: a width that does not divide the slot, so elements start at every bit offset of a slot */
+#define PACK_STORAGE_BITS 13
+#include "varintPacked.h"
